@@ -10,21 +10,6 @@ exactly one copy per eligible subscriber, none for anybody else.
 namespace Pyrtma.Mgr
 open Spec (A AMod)
 
-theorem sends_filter_map (B : Body → Bool) (evs : List Ev) :
-    ((Spec.sends evs).filter (fun p => B p.2.2.body)).map (fun p => (p.1, p.2.2)) = dataSends B evs := by
-  unfold Spec.sends dataSends
-  induction evs with
-  | nil => rfl
-  | cons e rest ih =>
-    cases e with
-    | send u c f =>
-      simp only [List.filterMap_cons]
-      by_cases hb : B f.body = true
-      · simp only [List.filter_cons, hb, if_true, List.map_cons, ih]
-      · have hb' : B f.body = false := by simpa using hb
-        simp only [List.filter_cons, hb', Bool.false_eq_true, if_false, ih]
-    | _ => simpa [List.filterMap_cons] using ih
-
 theorem quiet_of_QE {B : Body → Bool} {s s' : State} (h : QE B s s') : Quiet B s s' := by
   obtain ⟨ext, he, hq⟩ := h
   unfold Quiet
@@ -328,5 +313,96 @@ theorem seg_data (hn : (rd.h.mtype == cfg.mtSetName) = false) (hr : (rd.h.mtype 
   exact segGoal_of hseg rfl (seg_close hs0 t0 n q evs he hW)
 
 end data
+
+/-! ## CLIENT_SET_NAME and MODULE_READY: a field of the record, then CLIENT_INFO -/
+
+section nameReady
+variable {cfg : Cfg} (ok : CfgOK cfg) (hfuel : cfg.fuel = 0)
+  {a : A} {s : State} (inv : Inv cfg a s) (rd : Read) (hu0 : rd.uid ≠ 0) (m : Module) (hm : s.find rd.uid = some m)
+  (am : AMod) (hget : a.get rd.uid = some am) (hal : am.alive = true)
+  (s2 : State) (evs : List Ev) (he : s2.out = (rdState cfg s rd).out ++ evs)
+  (hb : Spec.brokenRd cfg rd = false) (q : QuietTo cfg (readOne cfg s rd) s2)
+  (hc : (rd.h.mtype == cfg.mtConnect || rd.h.mtype == cfg.mtConnectV2) = false)
+  (hd : (rd.h.mtype == cfg.mtDisconnect) = false)
+  (hs : (rd.h.mtype == cfg.mtSubscribe || rd.h.mtype == cfg.mtResume || rd.h.mtype == cfg.mtUnsubscribe ||
+      rd.h.mtype == cfg.mtPause) = false)
+include ok hfuel inv hu0 hm hget hal he hb q hc hd hs
+
+theorem seg_setName (hn : (rd.h.mtype == cfg.mtSetName) = true) (nm : List Nat)
+    (hnm : cstr (rdState cfg s rd).buf 0 32 = some nm) : SegGoal cfg a rd evs s2 := by
+  rw [readOne_whole cfg s rd inv.top.good.ok m hm hb, pm_setName cfg _ _ _ hc hd hs hn nm hnm] at q
+  have hseg := Spec.segment_setName cfg a rd evs am hget hal hb hc hd hs hn nm
+    (by rw [bufs_eq inv.sim rd]; exact hnm)
+  have hm0 : (rdState cfg s rd).find rd.uid = some m := hm
+  have hrec : ∃ m0, ((rdState cfg s rd).upd rd.uid fun m => { m with name := nm }).find rd.uid = some m0 ∧
+      lookupMod ((rdState cfg s rd).upd rd.uid fun m => { m with name := nm }) rd.uid = m0 := by
+    have := find_upd_self (rdState cfg s rd) rd.uid (fun m => { m with name := nm }) (fun _ => rfl) hm0
+    exact ⟨_, this, by unfold lookupMod; rw [this]; rfl⟩
+  obtain ⟨m0, hm0f, hlk⟩ := hrec
+  rw [hlk] at q
+  have hs0 : Sim cfg ((Spec.afterBuf cfg a rd).upd rd.uid (fun m => { m with name := nm }))
+      ((rdState cfg s rd).upd rd.uid (fun m => { m with name := nm })) :=
+    sim_upd (rdState_sim inv.sim rd) rd.uid _ _ (fun _ => rfl) (fun _ => rfl) (fun _ => rfl)
+      (fun am m _ _ h => ⟨h.connected, h.modId, h.unique, h.isLogger, h.isDaemon, rfl, h.pid, h.subs, h.noAll⟩)
+      (fun _ => rfl) (fun _ => rfl) (fun _ => rfl) hu0 (fun _ => rfl)
+  have t0 : Top cfg ((rdState cfg s rd).upd rd.uid (fun m => { m with name := nm })) :=
+    top_upd ok hfuel (rdState_top ok hfuel inv.top rd) rd.uid _ (fun _ => rfl) (fun _ => rfl) (fun _ => rfl)
+  generalize hs0' : (rdState cfg s rd).upd rd.uid (fun m => { m with name := nm }) = s0' at *
+  have n := (logTop_nest cfg 20 s0').trans (infoOf_nest cfg _ m0)
+  have qa := (qa_log cfg 20 s0').trans (qa_info cfg _ m0)
+  have hnil := acks_nil_of_quiet qa q evs (by rw [← hs0']; exact he)
+  -- the CLIENT_INFO frames describe the table after the update
+  have hinfo : InfoTo s0' (fun _ => False) s0' s2 := by
+    have i1 := infoTo_log cfg s0' (fun _ => False) 20 s0'
+    have p1 := logAt_presAny cfg 20 s0'
+    have i2 : InfoTo s0' (fun _ => False) (logAt cfg (fwdTop cfg) 20 s0') (infoOf cfg (logAt cfg (fwdTop cfg) 20 s0') m0) :=
+      infoTo_infoOf cfg s0' _ _ m0 (Or.inr ⟨m0, by rw [find_uid hm0f]; exact hm0f, rfl⟩)
+    have p2 := p1.trans (infoOf_presAny cfg _ m0)
+    exact infoTo_trans (infoTo_trans i1 i2) (infoTo_rebase q.info p2)
+  have he' : s2.out = s0'.out ++ evs := by rw [← hs0']; exact he
+  have hW : Spec.CoreExt others ((Spec.afterBuf cfg a rd).upd rd.uid (fun m => { m with name := nm }))
+      (Spec.checkInfos (Spec.checkDepartures cfg (Spec.checkAcks cfg
+        ((Spec.afterBuf cfg a rd).upd rd.uid (fun m => { m with name := nm })) rd.uid false evs) none evs) evs) := by
+    rw [Spec.checkAcks_false_ok cfg _ rd.uid evs hnil]
+    have hD := Spec.checkDepartures_ext cfg ((Spec.afterBuf cfg a rd).upd rd.uid (fun m => { m with name := nm })) none evs
+    rw [checkInfos_pass hs0 hinfo evs he' (fun _ _ h => h.elim) hD.mods]
+    exact ext_others hD
+  exact segGoal_of hseg rfl (seg_close hs0 t0 n q evs he' hW)
+
+theorem seg_ready (hn : (rd.h.mtype == cfg.mtSetName) = false) (hr : (rd.h.mtype == cfg.mtModuleReady) = true) :
+    SegGoal cfg a rd evs s2 := by
+  rw [readOne_whole cfg s rd inv.top.good.ok m hm hb, pm_ready cfg _ _ _ hc hd hs hn hr] at q
+  have hseg := Spec.segment_ready cfg a rd evs am hget hal hb hc hd hs hn hr
+  rw [bufs_eq inv.sim rd] at hseg
+  generalize bufI32 (rdState cfg s rd).buf 0 = pid at q hseg
+  have hs0 : Sim cfg ((Spec.afterBuf cfg a rd).upd rd.uid (fun m => { m with pid := pid }))
+      ((rdState cfg s rd).upd rd.uid (fun m => { m with pid := pid })) :=
+    sim_upd (rdState_sim inv.sim rd) rd.uid _ _ (fun _ => rfl) (fun _ => rfl) (fun _ => rfl)
+      (fun am m _ _ h => ⟨h.connected, h.modId, h.unique, h.isLogger, h.isDaemon, h.name, rfl, h.subs, h.noAll⟩)
+      (fun _ => rfl) (fun _ => rfl) (fun _ => rfl) hu0 (fun _ => rfl)
+  have t0 : Top cfg ((rdState cfg s rd).upd rd.uid (fun m => { m with pid := pid })) :=
+    top_upd ok hfuel (rdState_top ok hfuel inv.top rd) rd.uid _ (fun _ => rfl) (fun _ => rfl) (fun _ => rfl)
+  generalize hs0' : (rdState cfg s rd).upd rd.uid (fun m => { m with pid := pid }) = s0' at *
+  have n := sendInfo_nest cfg s0' rd.uid
+  have qa := qa_sendInfo cfg s0' rd.uid
+  have he' : s2.out = s0'.out ++ evs := by rw [← hs0']; exact he
+  have hnil := acks_nil_of_quiet qa q evs he'
+  have hinfo : InfoTo s0' (fun _ => False) s0' s2 := by
+    have i1 := infoTo_sendInfo cfg s0' (fun _ => False) s0' rd.uid (Pres.refl s0')
+    have p1 : Pres s0' (sendInfo cfg s0' rd.uid) := by
+      unfold sendInfo; cases s0'.find rd.uid with
+      | none => exact Pres.refl _
+      | some m' => exact infoOf_presAny cfg s0' m'
+    exact infoTo_trans i1 (infoTo_rebase q.info p1)
+  have hW : Spec.CoreExt others ((Spec.afterBuf cfg a rd).upd rd.uid (fun m => { m with pid := pid }))
+      (Spec.checkInfos (Spec.checkDepartures cfg (Spec.checkAcks cfg
+        ((Spec.afterBuf cfg a rd).upd rd.uid (fun m => { m with pid := pid })) rd.uid false evs) none evs) evs) := by
+    rw [Spec.checkAcks_false_ok cfg _ rd.uid evs hnil]
+    have hD := Spec.checkDepartures_ext cfg ((Spec.afterBuf cfg a rd).upd rd.uid (fun m => { m with pid := pid })) none evs
+    rw [checkInfos_pass hs0 hinfo evs he' (fun _ _ h => h.elim) hD.mods]
+    exact ext_others hD
+  exact segGoal_of hseg rfl (seg_close hs0 t0 n q evs he' hW)
+
+end nameReady
 
 end Pyrtma.Mgr
